@@ -393,3 +393,56 @@ Example c11_source_nonvacuous :
   /\ SrcRun.src_to_transcript_items 3 [(12, 50, 81); (7, -1, -1)] (Some [(12, TStr [97]); (7, TStr [98])]) (Some (10 # 1))
      = Some [Timed (TStr [97]) (1 # 2) (81 # 100); Plain (TStr [98])].
 Proof. repeat split; vm_compute; reflexivity. Qed.
+
+(* ============================== source ties, second unit ================================ *)
+(* Unit C11BSrc (harness/py2coq/units/C11BSrc.json): write_trn as a WHOLE function (its path branch `with open(..) as trn:
+   return write_trn(transcripts, trn)`, its local helper _handle_x, the loop over the transcripts), translated on every
+   run with string literals byte for byte, interpreted by PV.MiniPy.Interp with the external calls of
+   PV.C11.SrcRunB.extB (encodings and what extB assumes: C11/SrcRunB.v; notes/C11_tie_report.md, "Second tie").
+   [n] is the fuel of extB = the depth of calls of the unit's own functions that is interpreted: any n above the nesting
+   depth of the alternates (+1 for the re-call of the path branch) will do. *)
+From PV Require C11.ModelB C11.SrcRunB C11.TieB.
+
+(* write_trn._handle_x = Model.handle_x: every element, alternates nested to any depth *)
+Theorem c11_source_handle_x_is_model : forall x n, (ModelB.edepth x <= n)%nat ->
+  exists st, SrcRunB.run_handle_x n (SrcRunB.enc_elem x) = Interp.Ok (SrcRun.enc_str (handle_x x)) st.
+Proof. exact TieB.handle_x_is_model. Qed.
+Print Assumptions c11_source_handle_x_is_model.
+
+(* write_trn on an open (empty) file = Model.write_trn_file on the elements without their times: every list of
+   transcripts, elements bare tokens or (token | alternates, start, end) triples with int / float times *)
+Theorem c11_source_write_trn_is_model : forall ts n, (S (ModelB.tdepth ts) <= n)%nat ->
+  exists st, SrcRunB.run_write_trn n (SrcRunB.enc_trn_ts ts) (SrcRunB.mk_file Syntax.VNone []) = Interp.Ok Syntax.VNone st
+             /\ SrcRunB.file_text TieB.trn_var st = Some (write_trn_file (map ModelB.untimed_utt ts)).
+Proof. exact TieB.write_trn_is_model. Qed.
+Print Assumptions c11_source_write_trn_is_model.
+
+(* write_trn given a path: the file the `with` block leaves behind holds Model.write_trn_path's text
+   ("Giving a path or an already open file produces byte-identical output", for the interpreted source) *)
+Theorem c11_source_write_trn_path_is_model : forall ts n path, (S (S (ModelB.tdepth ts)) <= n)%nat ->
+  exists st, SrcRunB.run_write_trn n (SrcRunB.enc_trn_ts ts) (SrcRun.enc_str path) = Interp.Ok Syntax.VNone st
+             /\ SrcRunB.last_written st = Some (SrcRun.enc_str path, write_trn_path (map ModelB.untimed_utt ts)).
+Proof. exact TieB.write_trn_path_is_model. Qed.
+Print Assumptions c11_source_write_trn_path_is_model.
+
+(* composed with c11_trn_roundtrip: the file written by the interpreted write_trn is read back as the same utterances
+   and elements (times dropped) - by the MODEL reader read_trn_serial (the character-level trn reader is tied to /repo
+   by the differential runs only, not by a source tie) *)
+Theorem c11_source_trn_roundtrip : forall ts n, (S (ModelB.tdepth ts) <= n)%nat ->
+  trn_okb (map ModelB.untimed_utt ts) = true ->
+  exists st text, SrcRunB.run_write_trn n (SrcRunB.enc_trn_ts ts) (SrcRunB.mk_file Syntax.VNone []) = Interp.Ok Syntax.VNone st
+                  /\ SrcRunB.file_text TieB.trn_var st = Some text
+                  /\ read_trn_serial text = Ok (map ModelB.untimed_utt ts).
+Proof. exact TieB.source_trn_roundtrip. Qed.
+Print Assumptions c11_source_trn_roundtrip.
+
+(* the hypotheses are met and the conclusion is not empty: a three-character token, a timed token, a nested alternate
+   with an empty branch and an empty transcript, written by the interpreted source through an open file and a path *)
+Example c11_source_trn_nonvacuous :
+  let ts := [([117], [ModelB.TBare [97; 98; 99]; ModelB.TTimed (Tok [120]) (ModelB.NQ (1 # 2)) (ModelB.NQ (5 # 4));
+                      ModelB.TTimed (Alt [[Tok [97]]; [Tok [98]; Alt [[]; [Tok [99]]]]]) (ModelB.NInt (-1)) (ModelB.NInt (-1))]);
+             ([118], [])] in
+  SrcRunB.src_write_trn_res false ts = Some (Ok (write_trn_file (map ModelB.untimed_utt ts)))
+  /\ SrcRunB.src_write_trn_res true ts = Some (Ok (write_trn_path (map ModelB.untimed_utt ts)))
+  /\ trn_okb (map ModelB.untimed_utt ts) = true.
+Proof. cbv zeta. repeat split; vm_compute; reflexivity. Qed.
